@@ -280,3 +280,53 @@ def gen_vcf(rng, nsamples=None, nchrom=None, nrec=None, allow_odd=True, allow_un
     meta = {"samples": samples, "chroms": chroms, "runs": run_order, "positions": positions, "prephase": prephase,
             "unknown_undeclared": unknown, "ps_type": ps_type}
     return vt, meta
+
+
+UNUSABLE_KINDS = ["all_multi_alt", "all_no_alt", "all_indel_only_snvs"]
+
+
+def make_unusable_chromosome(rng, vt, chrom, kind, enc=None):
+    """Turn every record of `chrom` in the VcfText into one that whatshap phase cannot use (multi-ALT / no ALT / not
+    an SNV, the latter unusable under --only-snvs), so that the chromosome's variant table is empty; with enc in
+    ("PS", "HP") every call of the chromosome additionally carries earlier phase information in that encoding
+    (also on homozygous calls and on the unsupported record types)."""
+    other = {"A": "C", "C": "G", "G": "T", "T": "A"}
+    for row in vt.rows:
+        if row[0] != chrom:
+            continue
+        ref, alts = row[3], row[4].split(",")
+        if kind == "all_multi_alt":
+            if len(alts) < 2:
+                a0 = alts[0] if alts[0] != "." else other.get(ref[0], "A")
+                alts = [a0, a0 + "T" if not a0.startswith("<") else "T"]
+            gts = ["1|2", "2|1", "0|1", "1|1"]
+        elif kind == "all_no_alt":
+            alts = ["."]
+            gts = ["0|0"]
+        else:
+            if len(ref) == 1 and alts[0] != "." and all(len(a) == 1 for a in alts):
+                ref = ref + "CA"                      # a deletion-like record: not an SNV
+            if alts == ["."]:
+                alts = ["."]
+            gts = ["0|1", "1|0", "1|1"]
+        row[3], row[4] = ref, ",".join(alts)
+        if enc is None:
+            fmt = row[8].split(":")
+            for i in range(9, len(row)):               # keep the calls, only make the GT fit the new ALT list
+                f = row[i].split(":")
+                if fmt[0] == "GT":
+                    f[0] = rng.choice(gts).replace("|", "/")
+                row[i] = ":".join(f)
+            continue
+        withpq = rng.random() < 0.3
+        if enc == "PS":
+            row[8] = "GT:PS" + (":PQ" if withpq else "")
+            for i in range(9, len(row)):
+                row[i] = rng.choice(gts) + ":7" + (":42" if withpq else "")
+        else:
+            row[8] = "GT:HP" + (":PQ" if withpq else "")
+            for i in range(9, len(row)):
+                row[i] = rng.choice(gts).replace("|", "/") + ":" + rng.choice(["7-1,7-2", "7-2,7-1"]) + (":42" if withpq else "")
+    for k in ((enc, "PQ") if enc else ()):
+        if not any(("ID=" + k + ",") in ln for ln in vt.header_lines):
+            vt.header_lines.append(FORMAT_DEFS[k])
